@@ -1,0 +1,125 @@
+//go:build verif
+
+// Contracts for package serializers, read by /verif/govc (comment-only file).
+package serializers
+
+// ---------------------------------------------------------------------------
+// C07: serializers are total on arbitrary documents; C11: they only read them
+// ---------------------------------------------------------------------------
+
+//@ func SPDX23.Serialize
+//@   props C07, C11, C06, C03
+//@   assigns \nothing
+//@   ensures [C03:spdx:nodes:complete] result1 == nil && sbom.validNL(bom.NodeList) ==> (forall i int :: 0 <= i && i < len(bom.NodeList.Nodes) ==> ((bom.NodeList.Nodes[i].Id in fieldset(as(result0, *v2_3.Document).Packages, PackageSPDXIdentifier)) || (bom.NodeList.Nodes[i].Id in fieldset(as(result0, *v2_3.Document).Files, FileSPDXIdentifier))))
+//@   ensures [C06:decl:spdx23] result1 == nil ==> typeis(result0, *v2_3.Document) && as(result0, *v2_3.Document) != nil && as(result0, *v2_3.Document).SPDXVersion == "SPDX-2.3"
+
+// Render is handed what Serialize of the same driver returned (writer protocol)
+//@ func SPDX23.Render
+//@   props C07
+//@   requires o != nil && typeis(doc, *v2_3.Document)
+//@   assigns \nothing
+
+//@ func CDX.Serialize
+//@   props C07, C11, C06, C03
+//@   assigns \nothing
+//@   ensures [C06:decl:cdx] result1 == nil ==> typeis(result0, *cyclonedx.BOM) && as(result0, *cyclonedx.BOM) != nil && as(result0, *cyclonedx.BOM).BOMFormat == "CycloneDX"
+//@   invariant L0: doc != nil && rootfresh(doc) && doc.Metadata != nil && rootfresh(doc.Metadata) && doc.Metadata.Lifecycles != nil && rootfresh(doc.Metadata.Lifecycles) && (arr(*doc.Metadata.Lifecycles) == nil || rootfresh(arr(*doc.Metadata.Lifecycles)))
+
+//@ func CDX.Render
+//@   props C07
+//@   requires o != nil
+//@   assigns \nothing
+
+//@ func clearAutoRefs
+//@   props C07
+//@   requires comps != nil
+//@   assigns anyelems(cyclonedx.Component)
+
+// the per-call serializer state: every component in the dictionary was built
+// by this call (fresh), and so are the sub-component lists hanging off them
+//@ pred cdxStateOK(s *serializerCDXState) = s != nil && rootfresh(s) && s.addedDict != nil && s.componentsDict != nil && rootfresh(s.addedDict) && rootfresh(s.componentsDict) && (forall k string :: (k in s.componentsDict) ==> s.componentsDict[k] != nil && rootfresh(s.componentsDict[k]) && (s.componentsDict[k].Components == nil || (rootfresh(s.componentsDict[k].Components) && (arr(*s.componentsDict[k].Components) == nil || rootfresh(arr(*s.componentsDict[k].Components))))))
+
+//@ func CDX.componentsMaps
+//@   inline
+//@   invariant L0: cdxStateOK(state)
+
+//@ func CDX.dependencies
+//@   inline
+//@   invariant L0: cdxStateOK(state)
+//@   invariant L1: cdxStateOK(state)
+//@   invariant L2: cdxStateOK(state)
+// C03: every dependsOn edge yields a dependency entry for its source
+// (the first invariant is a trigger hint: it mentions the last entry so that the solver has
+// the witness term for the existential at hand after an append)
+//@   invariant L0: [C03:inv] len(dependencies) == 0 || len(dependencies[len(dependencies) - 1].Ref) >= 0
+//@   invariant L0: [C03:inv] forall i int :: 0 <= i && i < _i && bom.NodeList.Edges[i].Type == 10 ==> (exists d int :: 0 <= d && d < len(dependencies) && dependencies[d].Ref == bom.NodeList.Edges[i].From)
+//@   invariant L1: [C03:inv] forall i int :: 0 <= i && i < _i1 && bom.NodeList.Edges[i].Type == 10 ==> (exists d int :: 0 <= d && d < len(dependencies) && dependencies[d].Ref == bom.NodeList.Edges[i].From)
+//@   invariant L2: [C03:inv] forall i int :: 0 <= i && i < _i1 && bom.NodeList.Edges[i].Type == 10 ==> (exists d int :: 0 <= d && d < len(dependencies) && dependencies[d].Ref == bom.NodeList.Edges[i].From)
+// C03: a node is withheld from the top-level component list (marked in addedDict)
+// only if it is the root or the target of a contains edge, i.e. nested under its parent
+//@   invariant L0: [C03:inv] (forall k string :: (k in state.addedDict) ==> k == bom.NodeList.RootElements[0] || (exists i int, j int :: 0 <= i && i < len(bom.NodeList.Edges) && bom.NodeList.Edges[i].Type == 5 && 0 <= j && j < len(bom.NodeList.Edges[i].To) && bom.NodeList.Edges[i].To[j] == k))
+//@   invariant L1: [C03:inv] (forall k string :: (k in state.addedDict) ==> k == bom.NodeList.RootElements[0] || (exists i int, j int :: 0 <= i && i < len(bom.NodeList.Edges) && bom.NodeList.Edges[i].Type == 5 && 0 <= j && j < len(bom.NodeList.Edges[i].To) && bom.NodeList.Edges[i].To[j] == k))
+//@   invariant L2: [C03:inv] (forall k string :: (k in state.addedDict) ==> k == bom.NodeList.RootElements[0] || (exists i int, j int :: 0 <= i && i < len(bom.NodeList.Edges) && bom.NodeList.Edges[i].Type == 5 && 0 <= j && j < len(bom.NodeList.Edges[i].To) && bom.NodeList.Edges[i].To[j] == k))
+
+//@ func serializerCDXState.components
+//@   inline
+//@   invariant L0: cdxStateOK(s)
+
+// ---------------------------------------------------------------------------
+// C03 (no silent drop): every non-file node yields an SPDX package carrying its
+// identifier; C01: where each attribute of the node lands in the package
+// ---------------------------------------------------------------------------
+//@ fieldset-of spdx/tools-golang/spdx/v2/v2_3.Package: PackageSPDXIdentifier
+//@ fieldset-of spdx/tools-golang/spdx/v2/v2_3.File: FileSPDXIdentifier
+
+//@ pred spdxFileOf(f *v2_3.File, n *sbom.Node) = f.FileSPDXIdentifier == n.Id && f.FileName == n.Name && f.LicenseConcluded == n.LicenseConcluded && f.LicenseComments == n.LicenseComments && f.FileComment == n.Comment && f.FileTypes == n.FileTypes
+
+//@ func buildFiles
+//@   props C03, C01
+//@   inline
+//@   requires [C03:pre] bom != nil && bom.NodeList != nil && sbom.validNL(bom.NodeList)
+//@   ensures [C01:spdx:file:scalars] result1 == nil ==> ((forall u int :: 0 <= u && u < len(bom.NodeList.Nodes) ==> !(bom.NodeList.Nodes[u].Id in fieldsetn(bom.NodeList.Nodes, Id, u))) ==> (forall f *v2_3.File, i int :: (f in elems(result0)) && 0 <= i && i < len(bom.NodeList.Nodes) && bom.NodeList.Nodes[i].Type != 0 && f.FileSPDXIdentifier == bom.NodeList.Nodes[i].Id ==> spdxFileOf(f, bom.NodeList.Nodes[i])))
+//@   invariant L0: [C01:inv] !(nil in elems(files)) && (forall f *v2_3.File :: (f in elems(files)) ==> fresh(f) && (f.FileSPDXIdentifier in fieldsetn(bom.NodeList.Nodes, Id, _i)))
+//@   invariant L0: [C01:inv] (forall u int :: 0 <= u && u < len(bom.NodeList.Nodes) ==> !(bom.NodeList.Nodes[u].Id in fieldsetn(bom.NodeList.Nodes, Id, u))) ==> (forall f *v2_3.File, i int :: (f in elems(files)) && 0 <= i && i < len(bom.NodeList.Nodes) && bom.NodeList.Nodes[i].Type != 0 && f.FileSPDXIdentifier == bom.NodeList.Nodes[i].Id ==> spdxFileOf(f, bom.NodeList.Nodes[i]))
+//@   ensures [C03:spdx:files:complete] result1 == nil ==> (forall i int :: 0 <= i && i < len(bom.NodeList.Nodes) && bom.NodeList.Nodes[i].Type != 0 ==> (bom.NodeList.Nodes[i].Id in fieldset(result0, FileSPDXIdentifier)))
+//@   invariant L0: [C03:inv] forall i int :: 0 <= i && i < _i && bom.NodeList.Nodes[i].Type != 0 ==> (bom.NodeList.Nodes[i].Id in fieldset(files, FileSPDXIdentifier))
+
+// where the scalar attributes of a node must land in its SPDX package (written from the attribute list of C01)
+//@ pred spdxPkgOf(p *v2_3.Package, n *sbom.Node) = p.PackageSPDXIdentifier == n.Id && p.PackageName == n.Name && p.PackageVersion == n.Version && p.PackageFileName == n.FileName && p.PackageHomePage == n.UrlHome && p.PackageLicenseConcluded == n.LicenseConcluded && p.PackageLicenseComments == n.LicenseComments && p.PackageSourceInfo == n.SourceInfo && p.PackageSummary == n.Summary && p.PackageDescription == n.Description && p.PackageComment == n.Comment && p.PackageDownloadLocation == (n.UrlDownload == "" ? "NOASSERTION" : n.UrlDownload)
+
+//@ func SPDX23.buildPackages
+//@   props C03, C01
+//@   inline
+//@   requires [C03:pre] bom != nil && bom.NodeList != nil && sbom.validNL(bom.NodeList)
+//@   ensures [C03:spdx:packages:complete] result1 == nil ==> (forall i int :: 0 <= i && i < len(bom.NodeList.Nodes) && bom.NodeList.Nodes[i].Type != 1 ==> (bom.NodeList.Nodes[i].Id in fieldset(result0, PackageSPDXIdentifier)))
+//@   ensures [C01:spdx:package:scalars] result1 == nil ==> ((forall u int :: 0 <= u && u < len(bom.NodeList.Nodes) ==> !(bom.NodeList.Nodes[u].Id in fieldsetn(bom.NodeList.Nodes, Id, u))) ==> (forall p *v2_3.Package, i int :: (p in elems(result0)) && 0 <= i && i < len(bom.NodeList.Nodes) && bom.NodeList.Nodes[i].Type != 1 && p.PackageSPDXIdentifier == bom.NodeList.Nodes[i].Id ==> spdxPkgOf(p, bom.NodeList.Nodes[i])))
+//@   ensures [C01:spdx:package:dates] result1 == nil ==> ((forall u int :: 0 <= u && u < len(bom.NodeList.Nodes) ==> !(bom.NodeList.Nodes[u].Id in fieldsetn(bom.NodeList.Nodes, Id, u))) ==> (forall p *v2_3.Package, i int :: (p in elems(result0)) && 0 <= i && i < len(bom.NodeList.Nodes) && bom.NodeList.Nodes[i].Type != 1 && p.PackageSPDXIdentifier == bom.NodeList.Nodes[i].Id ==> (bom.NodeList.Nodes[i].ReleaseDate != nil ==> p.ReleaseDate == time.Time.Format(time.Time.UTC(timestamppb.Timestamp.AsTime(bom.NodeList.Nodes[i].ReleaseDate)), "2006-01-02T15:04:05Z07:00")) && (bom.NodeList.Nodes[i].BuildDate != nil ==> p.BuiltDate == time.Time.Format(time.Time.UTC(timestamppb.Timestamp.AsTime(bom.NodeList.Nodes[i].BuildDate)), "2006-01-02T15:04:05Z07:00")) && (bom.NodeList.Nodes[i].ValidUntilDate != nil ==> p.ValidUntilDate == time.Time.Format(time.Time.UTC(timestamppb.Timestamp.AsTime(bom.NodeList.Nodes[i].ValidUntilDate)), "2006-01-02T15:04:05Z07:00")) && (bom.NodeList.Nodes[i].ReleaseDate == nil ==> p.ReleaseDate == "") && (bom.NodeList.Nodes[i].BuildDate == nil ==> p.BuiltDate == "") && (bom.NodeList.Nodes[i].ValidUntilDate == nil ==> p.ValidUntilDate == "")))
+//@   invariant L0: [C01:inv] (forall u int :: 0 <= u && u < len(bom.NodeList.Nodes) ==> !(bom.NodeList.Nodes[u].Id in fieldsetn(bom.NodeList.Nodes, Id, u))) ==> (forall p *v2_3.Package, i int :: (p in elems(packages)) && 0 <= i && i < len(bom.NodeList.Nodes) && bom.NodeList.Nodes[i].Type != 1 && p.PackageSPDXIdentifier == bom.NodeList.Nodes[i].Id ==> (bom.NodeList.Nodes[i].ReleaseDate != nil ==> p.ReleaseDate == time.Time.Format(time.Time.UTC(timestamppb.Timestamp.AsTime(bom.NodeList.Nodes[i].ReleaseDate)), "2006-01-02T15:04:05Z07:00")) && (bom.NodeList.Nodes[i].BuildDate != nil ==> p.BuiltDate == time.Time.Format(time.Time.UTC(timestamppb.Timestamp.AsTime(bom.NodeList.Nodes[i].BuildDate)), "2006-01-02T15:04:05Z07:00")) && (bom.NodeList.Nodes[i].ValidUntilDate != nil ==> p.ValidUntilDate == time.Time.Format(time.Time.UTC(timestamppb.Timestamp.AsTime(bom.NodeList.Nodes[i].ValidUntilDate)), "2006-01-02T15:04:05Z07:00")) && (bom.NodeList.Nodes[i].ReleaseDate == nil ==> p.ReleaseDate == "") && (bom.NodeList.Nodes[i].BuildDate == nil ==> p.BuiltDate == "") && (bom.NodeList.Nodes[i].ValidUntilDate == nil ==> p.ValidUntilDate == ""))
+//@   ensures [C01:spdx:package:people] result1 == nil ==> ((forall u int :: 0 <= u && u < len(bom.NodeList.Nodes) ==> !(bom.NodeList.Nodes[u].Id in fieldsetn(bom.NodeList.Nodes, Id, u))) ==> (forall p *v2_3.Package, i int :: (p in elems(result0)) && 0 <= i && i < len(bom.NodeList.Nodes) && bom.NodeList.Nodes[i].Type != 1 && p.PackageSPDXIdentifier == bom.NodeList.Nodes[i].Id ==> ((p.PackageSupplier != nil) <==> (len(bom.NodeList.Nodes[i].Suppliers) > 0)) && ((p.PackageOriginator != nil) <==> (len(bom.NodeList.Nodes[i].Originators) > 0))))
+//@   invariant L0: [C01:inv] !(nil in elems(packages)) && (forall p *v2_3.Package :: (p in elems(packages)) ==> fresh(p) && (p.PackageSPDXIdentifier in fieldsetn(bom.NodeList.Nodes, Id, _i)))
+//@   invariant L0: [C01:inv] (forall u int :: 0 <= u && u < len(bom.NodeList.Nodes) ==> !(bom.NodeList.Nodes[u].Id in fieldsetn(bom.NodeList.Nodes, Id, u))) ==> (forall p *v2_3.Package, i int :: (p in elems(packages)) && 0 <= i && i < len(bom.NodeList.Nodes) && bom.NodeList.Nodes[i].Type != 1 && p.PackageSPDXIdentifier == bom.NodeList.Nodes[i].Id ==> spdxPkgOf(p, bom.NodeList.Nodes[i]))
+//@   invariant L0: [C01:inv] (forall u int :: 0 <= u && u < len(bom.NodeList.Nodes) ==> !(bom.NodeList.Nodes[u].Id in fieldsetn(bom.NodeList.Nodes, Id, u))) ==> (forall p *v2_3.Package, i int :: (p in elems(packages)) && 0 <= i && i < len(bom.NodeList.Nodes) && bom.NodeList.Nodes[i].Type != 1 && p.PackageSPDXIdentifier == bom.NodeList.Nodes[i].Id ==> ((p.PackageSupplier != nil) <==> (len(bom.NodeList.Nodes[i].Suppliers) > 0)) && ((p.PackageOriginator != nil) <==> (len(bom.NodeList.Nodes[i].Originators) > 0)))
+//@   invariant L0: [C03:inv] forall i int :: 0 <= i && i < _i && bom.NodeList.Nodes[i].Type != 1 ==> (bom.NodeList.Nodes[i].Id in fieldset(packages, PackageSPDXIdentifier))
+
+// C03/C01: every (edge, target) pair yields a relationship with that source, target and type
+//@ func buildRelationships
+//@   props C03, C01
+//@   inline
+//@   requires [C03:pre] bom != nil && bom.NodeList != nil && sbom.validNL(bom.NodeList)
+//@   ensures [C03:spdx:relationships:complete] result1 == nil ==> (forall i int, j int :: 0 <= i && i < len(bom.NodeList.Edges) && 0 <= j && j < len(bom.NodeList.Edges[i].To) ==> (exists k int :: 0 <= k && k < len(result0) && result0[k] != nil && result0[k].RefA.ElementRefID == bom.NodeList.Edges[i].From && result0[k].RefA.DocumentRefID == "" && result0[k].RefB.ElementRefID == bom.NodeList.Edges[i].To[j] && result0[k].RefB.DocumentRefID == "" && result0[k].Relationship == sbom.Edge_Type.ToSPDX2(bom.NodeList.Edges[i].Type)))
+//@   ensures [C01:spdx:relationships:complete] result1 == nil ==> (forall i int, j int :: 0 <= i && i < len(bom.NodeList.Edges) && 0 <= j && j < len(bom.NodeList.Edges[i].To) ==> (exists k int :: 0 <= k && k < len(result0) && result0[k] != nil && result0[k].RefA.ElementRefID == bom.NodeList.Edges[i].From && result0[k].RefA.DocumentRefID == "" && result0[k].RefB.ElementRefID == bom.NodeList.Edges[i].To[j] && result0[k].RefB.DocumentRefID == "" && result0[k].Relationship == sbom.Edge_Type.ToSPDX2(bom.NodeList.Edges[i].Type)))
+//@   invariant L0: [C03:inv@root] !(nil in elems(relationships)) && (forall i int, j int :: 0 <= i && i < _i && 0 <= j && j < len(bom.NodeList.Edges[i].To) ==> (exists k int :: 0 <= k && k < len(relationships) && relationships[k] != nil && relationships[k].RefA.ElementRefID == bom.NodeList.Edges[i].From && relationships[k].RefA.DocumentRefID == "" && relationships[k].RefB.ElementRefID == bom.NodeList.Edges[i].To[j] && relationships[k].RefB.DocumentRefID == "" && relationships[k].Relationship == sbom.Edge_Type.ToSPDX2(bom.NodeList.Edges[i].Type)))
+//@   invariant L1: [C03:inv@root] !(nil in elems(relationships)) && (forall i int, j int :: 0 <= i && i < _i1 && 0 <= j && j < len(bom.NodeList.Edges[i].To) ==> (exists k int :: 0 <= k && k < len(relationships) && relationships[k] != nil && relationships[k].RefA.ElementRefID == bom.NodeList.Edges[i].From && relationships[k].RefA.DocumentRefID == "" && relationships[k].RefB.ElementRefID == bom.NodeList.Edges[i].To[j] && relationships[k].RefB.DocumentRefID == "" && relationships[k].Relationship == sbom.Edge_Type.ToSPDX2(bom.NodeList.Edges[i].Type)))
+//@   invariant L1: [C03:inv@root] e != nil && e == bom.NodeList.Edges[_i1] && 0 <= _i1 && _i1 < len(bom.NodeList.Edges) && 0 <= _i && _i <= len(relationships) && (forall j int :: 0 <= j && j < _i ==> relationships[len(relationships) - _i + j] != nil && relationships[len(relationships) - _i + j].RefA.ElementRefID == e.From && relationships[len(relationships) - _i + j].RefA.DocumentRefID == "" && relationships[len(relationships) - _i + j].RefB.ElementRefID == e.To[j] && relationships[len(relationships) - _i + j].RefB.DocumentRefID == "" && relationships[len(relationships) - _i + j].Relationship == sbom.Edge_Type.ToSPDX2(e.Type))
+
+// ---------------------------------------------------------------------------
+// C02: where each attribute of a node lands in its CycloneDX component
+// ---------------------------------------------------------------------------
+//@ pred cdxCompOf(c *cyclonedx.Component, n *sbom.Node) = c.BOMRef == n.Id && c.Name == n.Name && c.Version == n.Version && c.Description == n.Description && c.Copyright == n.Copyright && (n.Type == 1 ==> c.Type == "file") && ((n.Identifiers != nil && (1 in n.Identifiers)) ==> c.PackageURL == n.Identifiers[1]) && (!(n.Identifiers != nil && (1 in n.Identifiers)) ==> c.PackageURL == "")
+
+//@ func CDX.nodeToComponent
+//@   props C02
+//@   inline
+//@   ensures [C02:cdx:component:nil] (result == nil) <==> (n == nil)
+//@   ensures [C02:cdx:component:scalars] n != nil ==> cdxCompOf(result, n)
+//@   invariant L4: [C02:inv] c != nil && fresh(c) && c.BOMRef == n.Id && c.Name == n.Name && c.Version == n.Version && c.Description == n.Description && c.Copyright == "" && (n.Type == 1 ==> c.Type == "file") && ((1 in _V) ==> c.PackageURL == n.Identifiers[1]) && (!(1 in _V) ==> c.PackageURL == "")
